@@ -15,8 +15,8 @@ EXTENDS Exporter, Json, IOUtils
 
 CONSTANTS MaxOps, Sizes, Emit
 
-VARIABLES ex, hist, subQR, subMM, subAEC, nadd
-vars == <<ex, hist, subQR, subMM, subAEC, nadd>>
+VARIABLES ex, hist, subQR, subMM, subAEC, nadd, bps0
+vars == <<ex, hist, subQR, subMM, subAEC, nadd, bps0>>
 
 AllQ == <<3, 255, 255>>     \* 2^18 - 1
 AllS == <<1, 255, 255>>     \* 2^17 - 1
@@ -26,6 +26,7 @@ MkBP(max, qrh, odh) == [tps |-> <<3, 232>>, max |-> FromInt(max), qrh |-> qrh, s
 BP0(m) == MkBP(m, AllQ, <<3>>)
 BP1(m) == MkBP(m, <<3, 255, 253>>, <<2>>)
 BP2    == MkBP(2, AllQ, <<1>>)          \* added later: no address events
+BP3    == MkBP(1, <<3, 255, 251>>, <<3>>)  \* replaces the active set in place: no client port
 
 QrA == [client_port |-> <<1>>, ts |-> [s |-> <<5>>, t |-> <<7>>]]
 QrB == [client_ip |-> <<10, 0, 0, 1>>]                 \* unstorable under set 1
@@ -40,11 +41,11 @@ Ops == {[op |-> "qr", r |-> QrA], [op |-> "qr", r |-> QrB], [op |-> "qr", r |-> 
         [op |-> "aec", r |-> Aec1], [op |-> "aec", r |-> Aec2], [op |-> "mm", r |-> Mm1],
         [op |-> "wb"], [op |-> "rot", export |-> TRUE], [op |-> "rot", export |-> FALSE],
         [op |-> "setbp", i |-> 0], [op |-> "setbp", i |-> 1], [op |-> "setbp", i |-> 2], [op |-> "setbp", i |-> 9],
-        [op |-> "addbp", bp |-> BP2]}
+        [op |-> "addbp", bp |-> BP2], [op |-> "editbp", bp |-> BP3]}
 
 Pre == [major |-> <<1>>, minor |-> <<>>, private |-> <<1>>]
 
-MCInit == /\ \E m0 \in Sizes : \E m1 \in Sizes : ex = ExInit(Pre, <<BP0(m0), BP1(m1)>>)
+MCInit == /\ \E m0 \in Sizes : \E m1 \in Sizes : ex = ExInit(Pre, <<BP0(m0), BP1(m1)>>) /\ bps0 = <<BP0(m0), BP1(m1)>>
           /\ hist = <<>> /\ subQR = <<>> /\ subMM = <<>> /\ subAEC = <<>> /\ nadd = 0
 
 StatsIn(o) == IF "stats" \in DOMAIN o THEN <<o.stats>> ELSE NoStats
@@ -56,6 +57,7 @@ Apply(o) ==
       [] o.op = "wb"  -> StepWB(ex).s
       [] o.op = "rot" -> StepRot(ex, o.export).s
       [] o.op = "addbp" -> StepAddBP(ex, o.bp).s
+      [] o.op = "editbp" -> StepEditBP(ex, o.bp)
       [] OTHER -> StepSetBP(ex, o.i).s
 
 MCNext ==
@@ -63,8 +65,10 @@ MCNext ==
     /\ \E o \in Ops :
         /\ o.op = "addbp" => nadd = 0
         /\ o.op = "setbp" => SetBPAllowed(ex, o.i)             \* documented caller duty
+        /\ o.op = "editbp" => (ex.bw = 0 /\ ~\E i \in 1..Len(hist) : hist[i].op = "editbp")
+                                                               \* only while the header of the output is not written yet
         /\ ex' = Apply(o)
-        /\ hist' = Append(hist, o)
+        /\ hist' = Append(hist, o) /\ UNCHANGED bps0
         /\ nadd' = IF o.op = "addbp" THEN 1 ELSE nadd
         /\ subQR' = IF o.op = "qr" /\ StorableQR(o.r, Hints(ex))
                     THEN Append(subQR, FilterQR(o.r, Hints(ex), BP(ex).tps)) ELSE subQR
@@ -94,8 +98,7 @@ C13_Frozen     == [][\A o \in 1..Len(ex.closed) : ex'.closed[o] = ex.closed[o]]_
 
 (* -- emission of complete histories for replay on the implementation -- *)
 Scenario == [comp |-> "none", out |-> "file",
-             preamble |-> [major |-> Pre.major, minor |-> Pre.minor, private |-> Pre.private,
-                           bps |-> SubSeq(ex.bps, 1, 2)],
+             preamble |-> [major |-> Pre.major, minor |-> Pre.minor, private |-> Pre.private, bps |-> bps0],
              ops |-> hist]
 EmitDone == (Emit /\ Len(hist) = MaxOps) => PrintT(<<"HIST", ToJson(Scenario)>>)
 =============================================================================
